@@ -167,6 +167,7 @@ func (l *c36Log) String() string {
 var c36Tally = regexp.MustCompile(`(majority|minority) in name conflict resolution[^\[]*\[(\d+) / (\d+)\]`)
 
 type c36Result struct {
+	skipped         bool // unusable generated case (see below)
 	viol, violKey   string
 	inconc          string
 	valid, matching int
@@ -284,7 +285,9 @@ func c36Run(t *testing.T, c c36Case, seed int64) c36Result {
 		}
 		sentBy := time.Since(start)
 		if sentBy >= q.Timeout {
-			res.inconc = fmt.Sprintf("replies were sent until %v, query timeout %v", sentBy, q.Timeout)
+			// the generated gaps add up to the whole query timeout (virtual time, decided by the case
+			// itself, not by the machine): late replies are not part of the vote, nothing to judge
+			res.skipped = true
 			return
 		}
 		// let the query time out and the node decide
@@ -325,6 +328,10 @@ func TestC36(t *testing.T) {
 		c := c36Gen(rng)
 		res := c36Run(t, c, int64(ci))
 		r.Eval(1)
+		if res.skipped {
+			r.Count("cases_skipped_replies_span_the_whole_timeout", 1)
+			return
+		}
 		if res.inconc != "" {
 			r.Inconclusive(fmt.Sprintf("case %d: %s", ci, res.inconc))
 			return
